@@ -153,10 +153,25 @@ func (fc *FuncCtx) atomicAccess(fr *Frame, st *State, p PlaceV, pos token.Pos) {
 
 // ---------- blocking operations (B1/B2) ----------
 
+// underLock (B2): an operation that can block must not be performed while this activation holds a lock.
+func (fc *FuncCtx) underLock(fr *Frame, st *State, what string, pos token.Pos) {
+	if len(st.heldLocks) == 0 {
+		return
+	}
+	var cs []string
+	for _, h := range st.heldLocks {
+		i := strings.LastIndex(h, "|")
+		key, ref := h[:i], h[i+1:]
+		cs = append(cs, tNot(fc.heldTerm(st, key, ref)))
+	}
+	fc.oblige(fr, st, "block.under-lock", "", tAnd(cs...), pos, what+" can block and is therefore not performed while a lock is held (B2)")
+}
+
 func (fc *FuncCtx) blockingOp(fr *Frame, st *State, kind string, ins ssa.Instruction, ch string, pos token.Pos) {
 	if fr.con == nil || fr.con.Flags["concurrent"] == "" {
 		return
 	}
+	fc.underLock(fr, st, "a blocking "+kind, pos)
 	// B1: a bare send/receive has no abandon case. It must be justified by the contract:
 	//   flag paired=<name>  or a capacity argument discharged below.
 	cp := "(select " + fc.compTerm(st, "CH!cap", "(Array Int Int)") + " " + ch + ")"
@@ -189,6 +204,7 @@ func (fc *FuncCtx) selectOp(fr *Frame, st *State, x *ssa.Select, idx string) {
 		fc.u.Obls = append(fc.u.Obls, o)
 		return
 	}
+	fc.underLock(fr, st, "a blocking select", x.Pos())
 	// B1 (a): structural — one case receives from a timer or a lifetime channel named in the contract
 	ok := false
 	life := strings.Split(fr.con.Flags["lifetime"], ",")
